@@ -11,6 +11,10 @@ checks mean.  Proofs: `EdVerif/Ssa/ProvSound/*.lean`.
 The verdicts are used in the simple form "no offending site at all" (`allClean`), which is what
 `verdictOk … []` decides; the simple form is evaluated by the kernel next to the packed one
 (`Props/Structural/ProvSound.lean`).
+
+`provOkSimple` / `writesOkSimple` also contain decidable *side conditions* on the program (`Side.*`,
+reasons in `EdVerif/Ssa/ProvSound/STATUS.md`), and both statements assume the arguments of the call to
+be well-typed for the parameters (`ArgsOk`): without either the statements are false.
 -/
 namespace EdVerif.Ssa
 
@@ -275,6 +279,194 @@ def sideSelector (prog : Program) (hints : List FuncHints) : Selector :=
     forceList (blockOffsets f.blocks 0) fun offsets =>
     some (sideCheck prog hints f h D offsets)
 
+
+/-! ### the same conditions with type sizes / layouts read from tables
+
+`Program.size` / `Program.tyOf` index the `Array` of types, which is slow under kernel reduction
+(milliseconds per access).  The checks are therefore evaluated through the twins below, which read
+sizes and layouts from lists computed once per program; `EdVerif/Ssa/ProvSound/Fast.lean` proves
+`provSideOk prog hints = allClean (sideSelector prog hints) prog.funcs hints 0`. -/
+
+structure TE where
+  prog : Program
+  sz : Nat → Option Nat
+  ty : Nat → Ty
+
+def TE.of (prog : Program) : TE := { prog := prog, sz := prog.size, ty := prog.tyOf }
+
+def sizeEqG (e : TE) (t t' : Nat) : Bool :=
+  match e.sz t' with
+  | none => true
+  | some n => e.sz t == some n
+
+def sizeIsG (e : TE) (t k : Nat) : Bool :=
+  match e.sz t with
+  | none => true
+  | some n => n == k
+
+def opndSizedG (e : TE) (f : Func) (dm : Nat) (useTy ty : Nat) : Opnd → Bool
+  | .reg id =>
+    dm.testBit id &&
+    (match f.instrs[id]? with
+     | some i => definesValue i.op && sizeEqG e i.ty ty
+     | none => false)
+  | .param i =>
+    (match f.params[i]? with
+     | some p => sizeEqG e p.tyId ty
+     | none => false)
+  | .zero _ =>
+    (match e.sz ty, e.prog.zeros useTy with
+     | some n, some zs => zs.length == n
+     | _, _ => true)
+  | .cint _ _ | .cbool _ | .cstr _ | .nil _ | .global _ | .fn _ => sizeIsG e ty 1
+  | _ => true
+
+def phisSizedG (e : TE) (f : Func) (dm : Nat) (pred : Nat) : List Instr → Bool
+  | [] => true
+  | i :: is =>
+    (match i.op with
+     | .phi es =>
+       (match phiEdge pred es with
+        | some o => opndSizedG e f dm i.ty i.ty o
+        | none => true)
+     | _ => true) && phisSizedG e f dm pred is
+
+def jumpOkG (e : TE) (f : Func) (D offsets : List Nat) (b n t : Nat) : Bool :=
+  match f.blocks[t]? with
+  | some bl =>
+    let dm := defMask D offsets b (n + 1)
+    (D.getD t 0 &&& dm == D.getD t 0) && phisSizedG e f dm b (splitPhis bl.instrs).1
+  | none => true
+
+def retSizedG (e : TE) (f : Func) (dm : Nat) : List Opnd → List Nat → Bool
+  | [], [] => true
+  | v :: vs, t :: ts => opndSizedG e f dm t t v && retSizedG e f dm vs ts
+  | _, _ => false
+
+def argsOkG (e : TE) (c : PCtx) (dm : Nat) (ps : List Param) : List Opnd → List Nat → Nat → Bool
+  | [], _, _ => true
+  | a :: as, tys, j =>
+    (match ps[j]? with
+     | some p => opndSizedG e c.f dm (tys.headD 0) p.tyId a && (p.k.pointerish || (c.lab a).roots == 0)
+     | none => true) && argsOkG e c dm ps as tys.tail (j + 1)
+
+def sizesOfG (e : TE) : List Nat → List (Option Nat)
+  | [] => []
+  | t :: ts => e.sz t :: sizesOfG e ts
+
+def sumSizesG (e : TE) : List Nat → Option Nat
+  | [] => some 0
+  | t :: ts =>
+    match e.sz t, sumSizesG e ts with
+    | some a, some b => some (a + b)
+    | _, _ => none
+
+def fieldSpanG (e : TE) (fs : List Nat) (i : Nat) : Option (Nat × Nat) := do
+  let before ← (fs.take i).mapM e.sz
+  let t ← fs[i]?
+  let sz ← e.sz t
+  pure (before.sum, sz)
+
+def resSizeOkG (e : TE) (c : PCtx) (dm : Nat) (i : Instr) : Bool :=
+  match i.op with
+  | .alloc _ _ | .binop _ _ _ _ | .unop _ _ | .convert _ _ | .fieldAddr _ _ _ | .indexAddr _ _ _
+  | .slice _ _ _ _ _ | .makeSlice _ _ | .makeInterface _ => sizeIsG e i.ty 1
+  | .sliceToArrayPointer _ =>
+    sizeIsG e i.ty 1 &&
+    (match e.ty i.ty with
+     | .ptr aty => (match e.ty aty with | .arr n _ => 1 ≤ n | _ => true)
+     | _ => true)
+  | .load _ =>
+    (match e.prog.zeros i.ty with
+     | some zs => sizeIsG e i.ty zs.length && (i.k.pointerish || allData zs)
+     | none => true)
+  | .changeType x => opndSizedG e c.f dm (i.opTys.headD 0) i.ty x
+  | .field _ fld _ =>
+    (match e.ty (i.opTys.headD 0) with
+     | .struct fs => (match fieldSpanG e fs fld with | some (_, sz) => sizeIsG e i.ty sz | none => true)
+     | _ => true)
+  | .extract x fld =>
+    (match e.ty (i.opTys.headD 0) with
+     | .struct fs =>
+       (match fieldSpanG e fs fld with | some (_, sz) => sizeIsG e i.ty sz | none => true) &&
+       (match x with
+        | .reg r =>
+          (match c.f.instrs[r]? with
+           | some ic =>
+             (match ic.op with
+              | .call (.fn g) _ =>
+                (match e.prog.funcs[g]? with
+                 | some gf => sizesOfG e fs == sizesOfG e gf.resultTys
+                 | none => false)
+              | _ => true)
+           | none => true)
+        | _ => true)
+     | _ => true)
+  | .index _ _ =>
+    (match e.ty (i.opTys.headD 0) with
+     | .arr _ el => (match e.sz el with | some sz => sizeIsG e i.ty sz | none => true)
+     | _ => true)
+  | .call (.fn g) args =>
+    (match e.prog.funcs[g]? with
+     | some gf =>
+       (match e.sz i.ty with
+        | some n => sumSizesG e gf.resultTys == some n
+        | none => true) && argsOkG e c dm gf.params args i.opTys 0
+     | none => true)
+  | .call (.extern n) args =>
+    if n == Ext.mul64 || n == Ext.add64 || n == Ext.sub64 then sizeIsG e i.ty 2
+    else if n == Ext.ctByteEq || n == Ext.ctCompare || n == Ext.leUint64 || n == Ext.errorsNew then sizeIsG e i.ty 1
+    else if n == Ext.onceDo then
+      sizeIsG e i.ty 0 &&
+      Prov.subset (Prov.minus (c.lab (args.getD 0 .cother)).roots Prov.fresh) Prov.globalMask
+    else sizeIsG e i.ty 0
+  | .call (.builtin _) _ => sizeIsG e i.ty 1
+  | _ => true
+
+def sInstrG (e : TE) (c : PCtx) (D offsets : List Nat) (b n : Nat) (i : Instr) : List Nm :=
+  let dm := defMask D offsets b n
+  if i.id == offsets.getD b 0 + n
+     && globalsInRange e.prog.globals.length i.op.operands
+     && Prov.subset (reqU c i).roots (provOf c.h.provRegs i.id)
+     && resSizeOkG e c dm i
+     && (match i.op with
+         | .jump t => jumpOkG e c.f D offsets b n t
+         | .if _ t el => jumpOkG e c.f D offsets b n t && jumpOkG e c.f D offsets b n el
+         | .ret vs => retSizedG e c.f dm vs c.f.resultTys && retLab c vs c.h.returns
+         | _ => true)
+  then [] else [K.malformed]
+
+def sideCheckG (e : TE) (hints : List FuncHints) (f : Func) (h : FuncHints) (D offsets : List Nat) : FuncCheck :=
+  { fnKinds := if D.headD 0 == 0 && !Prov.has h.writes Prov.loaded then [] else [K.malformed],
+    instr := sInstrG e { prog := e.prog, hints := hints, f := f, h := h } D offsets }
+
+def sideSelectorG (e : TE) (hints : List FuncHints) : Selector :=
+  fun _ f h =>
+    forceList (defSets f) fun D =>
+    forceList (blockOffsets f.blocks 0) fun offsets =>
+    some (sideCheckG e hints f h D offsets)
+
+/-- sizes of the types `0 … n-1` -/
+def sizeTab (prog : Program) : Nat → List (Option Nat) → List (Option Nat)
+  | 0, acc => acc
+  | n + 1, acc => sizeTab prog n (prog.size n :: acc)
+
+def forceOpt {α} (o : Option Nat) (k : Option Nat → α) : α :=
+  match o with
+  | none => k none
+  | some n => forceNat n (fun n' => k (some n'))
+
+def forceOptList {α} : List (Option Nat) → (List (Option Nat) → α) → α
+  | [], k => k []
+  | x :: xs, k => forceOpt x (fun x' => forceOptList xs (fun xs' => k (x' :: xs')))
+
+def forceSpine {α β} : List α → (List α → β) → β
+  | [], k => k []
+  | x :: xs, k => forceSpine xs (fun xs' => k (x :: xs'))
+
+def TE.tab (prog : Program) (szs : List (Option Nat)) (tys : List Ty) : TE :=
+  { prog := prog, sz := fun t => (szs[t]?).getD none, ty := fun t => (tys[t]?).getD .unsupported }
+
 /-- the parameters an exported function may store through are single pointers / slice headers -/
 def allowedSingle (prog : Program) (f : Func) (allowed : Prov) : Nat → Bool
   | 0 => true
@@ -293,8 +485,12 @@ def writesSideSelector (prog : Program) (pol : WritesPolicy) : Selector :=
 
 end Side
 
+/-- `= allClean (Side.sideSelector prog hints) prog.funcs hints 0` (`ProvSound/Fast.lean`), evaluated
+    through size / layout tables -/
 def provSideOk (prog : Program) (hints : List FuncHints) : Bool :=
-  allClean (Side.sideSelector prog hints) prog.funcs hints 0
+  Side.forceOptList (Side.sizeTab prog prog.types.size []) fun szs =>
+  Side.forceSpine prog.types.toList fun tys =>
+  allClean (Side.sideSelectorG (Side.TE.tab prog szs tys) hints) prog.funcs hints 0
 
 def provOkSimple (prog : Program) (hints : List FuncHints) : Bool :=
   allClean (provSelector prog hints) prog.funcs hints 0 && provSideOk prog hints
@@ -332,7 +528,7 @@ def Outcome.heap? : Outcome → Option Heap
   | .outOfFuel s => some s.heap
   | .fault _ => none
 
-/-- a pointer or a (non-nil) slice header -/
+/-- a pointer or a slice header -/
 def Val.isAddr : Val → Bool
   | .ptr _ _ => true
   | .slice _ _ _ _ => true
